@@ -2,7 +2,7 @@
    Model/DirSource.v: a directory as os.ReadDir / os.ReadFile show it (name -> readable bytes | unreadable), ParseRealtime
    as a parameter.  goods d names = the parse results of the names that read and parse, in the order of names.
    PARTIAL on the OS: real file-system behaviour is sampled by the "dirsource" engine on real temporary directories. *)
-From GV Require Import Base.Prelude Base.Sort Model.DirSource Proofs.DirSourceProofs.
+From GV Require Import Base.Prelude Base.Sort Model.DirSource Proofs.DirSourceProofs Model.Journal.
 From Coq Require Import Sorted.
 
 Section C19.
@@ -30,6 +30,14 @@ Print Assumptions C19_sequence.
 Print Assumptions C19_name_order.
 Print Assumptions C19_then_ends.
 Print Assumptions C19_bad_files_inert.
+
+(* composed with the journal builder (the source's only consumer in the library): the journal built from a directory, for
+   any window, is the journal built from its good files alone - whatever parser turns bytes into feeds *)
+Theorem C19_journal_from_directory : forall (B : Type) (parse : B -> option j_feed) (d : dir B) a b, NoDup (map fst d) ->
+  build_journal (goods B j_feed parse (good_only B j_feed parse d) (new_source B (good_only B j_feed parse d))) a b =
+  build_journal (goods B j_feed parse d (new_source B d)) a b.
+Proof. intros B parse d a b H. exact (f_equal (fun s => build_journal s a b) (good_only_same_stream B j_feed parse d H)). Qed.
+Print Assumptions C19_journal_from_directory.
 
 Example C19_example :
   drain (option Z) Z (fun b => b) 5 [("b.pb", File (Some 2)); ("sub", Unreadable); ("a.pb", File (Some 1)); ("corrupt", File None)]
